@@ -219,7 +219,9 @@ ActionNum(a) == CASE a \in {"addToHead", "head", "h"} -> 0
                   [] a \in {"addReplace", "replace", "r"} -> 4
 \* st.obj[h] = [kind, id, n, alive]: kind "synth" "group" "buf" "cbus" "abus"; id = node id / first
 \* bufnum / first bus index; n = buffers resp. channels
-Obj(kind, id, n, alive) == [kind |-> kind, id |-> id, n |-> n, alive |-> alive]
+Obj(kind, id, n, alive) == [kind |-> kind, id |-> id, n |-> n, alive |-> alive, fr |-> 0, ch |-> 0]
+\* a buffer object also knows its frames and channels (what a completion FUNCTION may read from it)
+ObjB(id, n, fr, ch) == [kind |-> "buf", id |-> id, n |-> n, alive |-> TRUE, fr |-> fr, ch |-> ch]
 InitState(cfg) ==
     [cfg |-> cfg, obj |-> <<>>, nodes |-> {}, recent |-> <<>>,
      buf |-> {}, cb |-> {}, ab |-> {}, inbind |-> FALSE, pending |-> <<>>]
@@ -280,11 +282,15 @@ One(m) == <<Ev("msg", NOTIME, <<m>>)>>
 R(st, em, exc) == [st |-> st, em |-> em, exc |-> exc]      \* next state, expected wire events, expected exception class
 AddObj(st, o) == [st EXCEPT !.obj = Append(@, o)]
 NewNode(st, kind, id) == [AddObj(st, Obj(kind, id, 1, TRUE)) EXCEPT !.nodes = @ \cup {id}, !.recent = Append(@, id)]
-Completed(cm, own) ==     \* completion message choices of the drivers: none | a fixed list | a function of the buffer
+\* completion message choices of the drivers: none | a fixed list | a function of the buffer reading its number ("func") |
+\* a function reading the buffer's STATE ("state": re-allocate with the same frames and channels).  A completion function
+\* is evaluated on the object as it is when the call is made - for free() too: still fully initialised.
+Completed(cm, own, o) ==
     CASE cm = "none" -> [g |-> <<I(0)>>, b |-> <<>>]
       [] cm = "list" -> [g |-> <<Blob(1)>>, b |-> <<Msg("/sync", <<I(7)>>)>>]
       [] cm = "func" -> [g |-> <<Blob(1)>>, b |-> <<Msg("/b_query", <<I(own)>>)>>]
-WithCm(a, g, cm, own) == LET c == Completed(cm, own) IN MsgB(a, g \o c.g, c.b)
+      [] cm = "state" -> [g |-> <<Blob(1)>>, b |-> <<Msg("/b_alloc", <<I(own), I(o.fr), I(o.ch)>>)>>]
+WithCm(a, g, cm, own, o) == LET c == Completed(cm, own, o) IN MsgB(a, g \o c.g, c.b)
 
 Apply(st, e) ==
     LET o == IF e.h >= 1 /\ e.h <= Len(st.obj) THEN st.obj[e.h] ELSE Obj("none", 0, 0, FALSE)
@@ -342,19 +348,19 @@ Apply(st, e) ==
       [] e.op = "reorder" -> R(st, One(Msg("/n_order", <<I(ActionNum(e.act)), I(TargetId(st, e))>> \o ScalarList(st, e.a))), "")
       \* ---- buffers: n = <<frames, channels>>; cm = completion message kind
       [] e.op = "buffer" ->
-            R([AddObj(st, Obj("buf", new, 1, TRUE)) EXCEPT !.buf = A!AfterAlloc(@, 1, new)],
-              One(WithCm("/b_alloc", <<I(new), I(e.n[1]), I(e.n[2])>>, e.cm, new)), "")
+            R([AddObj(st, ObjB(new, 1, e.n[1], e.n[2])) EXCEPT !.buf = A!AfterAlloc(@, 1, new)],
+              One(WithCm("/b_alloc", <<I(new), I(e.n[1]), I(e.n[2])>>, e.cm, new, ObjB(new, 1, e.n[1], e.n[2]))), "")
       [] e.op = "buffer_noalloc" ->
-            R([AddObj(st, Obj("buf", new, 1, TRUE)) EXCEPT !.buf = A!AfterAlloc(@, 1, new)], <<>>, "")
-      [] e.op = "b_alloc" -> R(st, One(WithCm("/b_alloc", <<I(id), I(e.n[1]), I(e.n[2])>>, e.cm, id)), "")
+            R([AddObj(st, ObjB(new, 1, e.n[1], e.n[2])) EXCEPT !.buf = A!AfterAlloc(@, 1, new)], <<>>, "")
+      [] e.op = "b_alloc" -> R(st, One(WithCm("/b_alloc", <<I(id), I(e.n[1]), I(e.n[2])>>, e.cm, id, o)), "")
       [] e.op = "consecutive" ->      \* n = <<count, frames, channels>>: one block, one /b_alloc per buffer
-            R([AddObj(st, Obj("buf", new, e.n[1], TRUE)) EXCEPT !.buf = A!AfterAlloc(@, e.n[1], new)],
-              [k \in 1 .. e.n[1] |-> Ev("msg", NOTIME, <<WithCm("/b_alloc", <<I(new + k - 1), I(e.n[2]), I(e.n[3])>>, "none", new)>>)], "")
+            R([AddObj(st, ObjB(new, e.n[1], e.n[2], e.n[3])) EXCEPT !.buf = A!AfterAlloc(@, e.n[1], new)],
+              [k \in 1 .. e.n[1] |-> Ev("msg", NOTIME, <<WithCm("/b_alloc", <<I(new + k - 1), I(e.n[2]), I(e.n[3])>>, "none", new, o)>>)], "")
       [] e.op = "b_free" ->
             \* the free command for every id the object owns, once; a freed object owns nothing
             IF o.alive
             THEN R([st EXCEPT !.obj[e.h].alive = FALSE, !.buf = A!AfterFree(@, id)],
-                   [k \in 1 .. o.n |-> Ev("msg", NOTIME, <<WithCm("/b_free", <<I(id + k - 1)>>, e.cm, id + k - 1)>>)], "")
+                   [k \in 1 .. o.n |-> Ev("msg", NOTIME, <<WithCm("/b_free", <<I(id + k - 1)>>, e.cm, id + k - 1, o)>>)], "")
             ELSE R(st, <<>>, "")
       [] e.op = "b_free_all" ->       \* Buffer.free_all(server): every live buffer number, one bundle
             LET ids == A!Occ(st.buf)
@@ -364,7 +370,7 @@ Apply(st, e) ==
                                                                     ELSE st.obj[h]]],
               IF ids = {} THEN <<>> ELSE <<Ev("bundle", NOTIME, [k \in 1 .. Cardinality(ids) |-> Msg("/b_free", <<I(Asc(ids)[k])>>)])>>, "")
       [] e.op \in {"b_zero", "b_close"} ->
-            IF o.alive THEN R(st, One(WithCm(IF e.op = "b_zero" THEN "/b_zero" ELSE "/b_close", <<I(id)>>, e.cm, id)), "")
+            IF o.alive THEN R(st, One(WithCm(IF e.op = "b_zero" THEN "/b_zero" ELSE "/b_close", <<I(id)>>, e.cm, id, o)), "")
             ELSE R(st, <<>>, "AlreadyFreed")
       [] e.op = "b_query" -> IF o.alive THEN R(st, One(Msg("/b_query", <<I(id)>>)), "") ELSE R(st, <<>>, "AlreadyFreed")
       [] e.op = "b_set" -> IF o.alive THEN R(st, One(Msg("/b_set", <<I(id)>> \o ScalarList(st, e.a))), "") ELSE R(st, <<>>, "AlreadyFreed")
@@ -389,12 +395,12 @@ Apply(st, e) ==
             R(st, One(MsgB("/b_read", <<I(id), S(e.def), I(e.n[1]), I(e.n[2]), I(e.n[3]), I(e.n[4]), Blob(1)>>,
                            <<Msg("/b_query", <<I(id)>>)>>)), "")
       [] e.op = "b_cue" ->       \* cue(path, start): stream from `start`, whole buffer, from its beginning, file left open
-            R(st, One(WithCm("/b_read", <<I(id), S(e.def), I(e.n[1]), I(e.n[2]), I(0), I(1)>>, e.cm, id)), "")
+            R(st, One(WithCm("/b_read", <<I(id), S(e.def), I(e.n[1]), I(e.n[2]), I(0), I(1)>>, e.cm, id, o)), "")
       [] e.op = "b_write" ->     \* write(path, header, sample format, frames, start, leave open)
-            IF o.alive THEN R(st, One(WithCm("/b_write", <<I(id), S(e.def), S("aiff"), S("int24"), I(e.n[1]), I(e.n[2]), I(e.n[3])>>, e.cm, id)), "")
+            IF o.alive THEN R(st, One(WithCm("/b_write", <<I(id), S(e.def), S("aiff"), S("int24"), I(e.n[1]), I(e.n[2]), I(e.n[3])>>, e.cm, id, o)), "")
             ELSE R(st, <<>>, "AlreadyFreed")
       [] e.op = "b_alloc_read" ->
-            R(st, One(WithCm("/b_allocRead", <<I(id), S(e.def), I(e.n[1]), I(e.n[2])>>, e.cm, id)), "")
+            R(st, One(WithCm("/b_allocRead", <<I(id), S(e.def), I(e.n[1]), I(e.n[2])>>, e.cm, id, o)), "")
       \* ---- buses: n = <<channels>>
       [] e.op = "cbus" -> R([AddObj(st, Obj("cbus", new, e.n[1], TRUE)) EXCEPT !.cb = A!AfterAlloc(@, e.n[1], new)], <<>>, "")
       [] e.op = "abus" -> R([AddObj(st, Obj("abus", new, e.n[1], TRUE)) EXCEPT !.ab = A!AfterAlloc(@, e.n[1], new)], <<>>, "")
